@@ -137,7 +137,6 @@ func (b *BFT) handleHighQCVDFAndEvidence(vote *Message) lib.ErrorI {
 			if b.HighQC == nil || b.HighQC.Header.Less(vote.HighQc.Header) {
 				b.log.Infof("Replica %s submitted a highQC", lib.BytesToTruncatedString(vote.Signature.PublicKey))
 				b.HighQC = vote.HighQc
-				b.Block, b.Results = vote.Qc.Block, vote.Qc.Results
 				b.RCBuildHeight = vote.RcBuildHeight
 			}
 		}
